@@ -19,8 +19,10 @@ KF_CLASS = "trailing-slash"
 METHODS9 = ["GET", "POST", "PUT", "DELETE", "PATCH", "HEAD", "OPTIONS", "CONNECT", "TRACE"]
 
 
-def render(h, p, ts=False):
-    return ".".join(h) + ("/" + "/".join(p) if p else "") + ("/" if ts else "")
+def render(h, p, var=""):
+    if var == "uc":
+        h = [l.upper() for l in h]
+    return ".".join(h) + ("." if var == "dot" else "") + ("/" + "/".join(p) if p else "") + ("/" if var == "ts" else "")
 
 
 def load_groups(sd, prefix):
@@ -50,7 +52,7 @@ def events_of(g, real, ri_list):
            "items": [{"name": it["name"], "kind": item_kind(g), "m": it["m"], "h": it["h"], "p": it["p"]} for it in g["items"]]}]
     for ri in ri_list:
         rq, o = g["reqs"][ri], real["outs"][ri]
-        ev.append({"ev": "req", "m": rq["m"], "h": rq["h"], "p": rq["p"], "ts": bool(rq.get("ts", False)),
+        ev.append({"ev": "req", "m": rq["m"], "h": rq["h"], "p": rq["p"], "var": rq.get("var", ""),
                    "engine": o["engine"], "proxy": len(o["proxy"]) > 0})
     return ev
 
@@ -93,7 +95,7 @@ def tlc_validate(ctx, blocks, tag, strict=False):
 
 def describe(group_ev, req_ev):
     return {"items": ["%s %s %s" % (it["kind"], "|".join(it["m"]) or "any-method", render(it["h"], it["p"])) for it in group_ev["items"]],
-            "request": "%s %s" % (req_ev["m"], render(req_ev["h"], req_ev["p"], req_ev.get("ts"))),
+            "request": "%s %s" % (req_ev["m"], render(req_ev["h"], req_ev["p"], req_ev.get("var", ""))),
             "engine": req_ev["engine"], "proxy": req_ev["proxy"], "manage_all": group_ev["manage_all"]}
 
 
@@ -101,17 +103,24 @@ def report_rejection(ctx, binary, kind, rej, origin):
     """reproduce (deterministic: one re-execution judged again by TLC) and report"""
     gev, rq = rej["group"], rej["req"]
     g = {"kind": kind, "items": [{"name": it["name"], "m": it["m"], "h": it["h"], "p": it["p"]} for it in gev["items"]],
-         "reqs": [{"m": rq["m"], "h": rq["h"], "p": rq["p"], "ts": rq["ts"]}]}
-    real = execute(ctx, binary, [g], "repro")[0]
+         "reqs": [{"m": rq["m"], "h": rq["h"], "p": rq["p"], "var": rq["var"]}]}
     w = describe(gev, rq)
     w["class"] = "bypass" if rq["engine"] and not rq["proxy"] else "literal-not-managed"
     w["level"] = kind
     w["origin"] = origin
-    if real["err"]:
-        raise Broken("rejection not reproduced (configuration no longer loads): %s" % json.dumps(w)[:600])
-    ev = events_of(g, real, [0])
-    _, rej2, _ = tlc_validate(ctx, [ev], "repro", strict=True)
-    if not rej2:
+    # the engine's request builder walks Go maps: what it registers may depend on the iteration order of one build, so a
+    # rejection at engine level is reproduced like a concurrent one (up to 20 fresh engine builds), elsewhere once
+    real, ev = None, None
+    for attempt in range(20 if kind == "engine" else 1):
+        real = execute(ctx, binary, [g], "repro")[0]
+        if real["err"]:
+            raise Broken("rejection not reproduced (configuration no longer loads): %s" % json.dumps(w)[:600])
+        ev = events_of(g, real, [0])
+        _, rej2, _ = tlc_validate(ctx, [ev], "repro", strict=True)
+        if rej2:
+            w["reproduced_after_attempts"] = attempt + 1
+            break
+    else:
         raise Broken("rejection not reproduced: %s" % json.dumps(w)[:800])
     ctx.violation(w, {"group": g, "trace": ev, "exprs": [e["e"] for e in real["exprs"]]})
 
@@ -192,6 +201,12 @@ def rand_group(rng, kind, nreq):
         items.append(it)
         if len(items) == k:
             break
+    # further items on the URL of an existing one, with other methods (flows: two filter groups on one URL)
+    for it in list(items):
+        if rng.random() < 0.35 and it["m"]:
+            others = [m for m in METHODS9[:6] if m not in it["m"]]
+            ms = rng.sample(others, 1 if kind == "policy" else rng.choice([1, 2]))
+            items.append({"name": "%s%d" % ("d" if kind == "policy" else "f", len(items) + 1), "m": ms, "h": it["h"], "p": list(it["p"])})
     catch_all = kind != "policy" and rng.random() < 0.08
     reqs, rs = [], set()
     tries = 0
@@ -219,12 +234,12 @@ def rand_group(rng, kind, nreq):
         elif x < 0.48:
             h = ["".join(h[:-1]) + "x" + h[-1]] if len(h) > 1 else h
         m = rng.choice(it["m"]) if it["m"] and rng.random() < 0.7 else rng.choice(METHODS9)
-        ts = rng.random() < 0.12
-        key = (m, render(h, p, ts))
+        var = rng.choice([""] * 14 + ["ts", "ts", "uc", "uc", "dot"])
+        key = (m, render(h, p, var))
         if key in rs:
             continue
         rs.add(key)
-        reqs.append({"m": m, "h": h, "p": p, "ts": ts})
+        reqs.append({"m": m, "h": h, "p": p, "var": var})
     if catch_all:
         # a flow for every URL ("*"): the engine matches everything, the proxy must be told to manage everything
         items.append({"name": "f%d" % (len(items) + 1), "m": rng.choice([[], ["GET"]]), "h": ["*"], "p": []})
@@ -236,12 +251,11 @@ def groups_of_case_files(raw, level_for_flow):
     """MC_C14 group files -> executor groups; flow items are executed at the given level(s)"""
     out = []
     for g in raw:
-        it = {"name": g["item"]["name"], "m": g["item"]["m"], "h": g["item"]["h"], "p": g["item"]["p"]}
         if g["kind"] == "policy":
-            out.append({"kind": "policy", "items": [it], "reqs": g["reqs"], "exp": g["exp"]})
+            out.append({"kind": "policy", "items": g["items"], "reqs": g["reqs"], "exp": g["exp"]})
         else:
             for lv in level_for_flow(g):
-                out.append({"kind": lv, "items": [it], "reqs": g["reqs"], "exp": g["exp"]})
+                out.append({"kind": lv, "items": g["items"], "reqs": g["reqs"], "exp": g["exp"]})
     return out
 
 
@@ -249,7 +263,7 @@ def run(ctx):
     T = ctx.thorough
     binary = ctx.build_harness("c14")
     sd = ctx.spec_dir(SPEC)
-    ctx.cov["rule"] = ("case = (loaded item [policy endpoint or flow filter with its method list], request [method, URL, trailing slash]) "
+    ctx.cov["rule"] = ("case = (loaded item [policy endpoint or flow filter with its method list], request [method, URL, spelling variant of the URL text: canonical / trailing slash / upper-case host / trailing dot]) "
                        "at one binding level (policy tree / filter tree / loaded engine); evaluations = cases executed on the real code; "
                        "distinct_nontrivial = distinct generated cases in which the real engine matched the request or the request spells "
                        "the configured URL (the antecedent of NoBypass / Literal is true); traces_validated = req events accepted by TLC")
@@ -264,7 +278,7 @@ def run(ctx):
                         "over-matching by the proxy (managing a request the engine has nothing for) is not a violation"]
 
     # (1) exhaustive I => P + case generation; (2) seeded sample of the larger item space; non-vacuity variants
-    nitems2 = 2 * 2 * sum(9 ** k for k in range(3)) * 4      # hosts x wildcard x bodies(<=2) x (1 policy + 3 flow method lists)
+    nitems2 = 2 * 2 * sum(9 ** k for k in range(3)) * 5      # hosts x wildcard x bodies(<=2) x (1 policy + 3 flow method lists + 1 split)
     npick = 60 if not T else 0
     picks = sorted(ctx.rng.sample(range(1, nitems2 + 1), npick)) if npick else []
     with open(os.path.join(sd, "picks.ndjson"), "w") as f:
@@ -293,7 +307,8 @@ def run(ctx):
 
     # flow items: filter-tree level for all; loaded-engine level for a seeded subset (an engine build costs ~10 ms)
     eng_frac = 0.25 if not T else 0.5
-    groups = groups_of_case_files(raw, lambda g: ["flow"] + (["engine"] if ctx.rng.random() < eng_frac else []))
+    # two flows on one URL: the per-URL grouping only exists in the engine's request builder -> always at engine level
+    groups = groups_of_case_files(raw, lambda g: ["flow"] + (["engine"] if g["split"] or ctx.rng.random() < eng_frac else []))
     ncases = sum(len(g["reqs"]) for g in groups)
     ctx.log("generated %d item groups -> %d executor groups, %d cases (%d at engine level)" % (
         len(raw), len(groups), ncases, sum(len(g["reqs"]) for g in groups if g["kind"] == "engine")))
@@ -321,7 +336,7 @@ def run(ctx):
                 nts += exp["v"] == "trailing-slash"
             elif ctx.rng.random() < frac:
                 pick.add(ri)
-            key = (g["kind"], tuple(g["items"][0]["m"]), render(g["items"][0]["h"], g["items"][0]["p"]), rq["m"], render(rq["h"], rq["p"], rq["ts"]))
+            key = (g["kind"], len(g["items"]), tuple(g["items"][0]["m"]), render(g["items"][0]["h"], g["items"][0]["p"]), rq["m"], render(rq["h"], rq["p"], rq["var"]))
             if key not in seen:
                 seen.add(key)
                 if e_real or exp["spells"]:
@@ -332,8 +347,9 @@ def run(ctx):
     ctx.log("executed %d cases; %d real verdict pairs differ from the model's; %d in the known trailing-slash class; %d blocks to validate"
             % (ncases, drift, nts, len(blocks)))
     need = [c + "@" + k for k in ("policy", "flow", "engine")
-            for c in ("engine-match", "proxy-over-match", "special-char-matched", "odd-param-name-matched", "wildcard-zero-tail", "trailing-slash-matched")
-            if not (c == "wildcard-zero-tail" and k != "policy")] + ["no-method-filter-HEAD@flow", "no-method-filter-HEAD@engine"]
+            for c in ("engine-match", "proxy-over-match", "special-char-matched", "odd-param-name-matched", "wildcard-zero-tail", "trailing-slash-matched", "host-case-variant")
+            if not (c == "wildcard-zero-tail" and k != "policy")] + ["no-method-filter-HEAD@flow", "no-method-filter-HEAD@engine",
+                                                                    "two-flows-one-url@flow", "two-flows-one-url@engine"]
     missing = [c for c in need if not classes.get(c)]
     if missing:
         raise Broken("generated cases do not cover the input classes %s (vacuous replay)" % missing)
@@ -382,11 +398,11 @@ def selftest(ctx, blocks):
                     return b, i
         raise Broken("self-test: no suitable event recorded")
     tests = []
-    b, i = find(lambda b, e: e["engine"] and e["proxy"] and not b[0]["manage_all"] and not e["ts"])
+    b, i = find(lambda b, e: e["engine"] and e["proxy"] and not b[0]["manage_all"] and e["var"] == "")
     bad = json.loads(json.dumps(b))
     bad[i]["proxy"] = False
     tests.append(("proxy verdict flipped to unmanaged", bad))
-    b2, i2 = find(lambda b, e: not e["engine"] and not e["proxy"] and not b[0]["manage_all"] and not e["ts"])
+    b2, i2 = find(lambda b, e: not e["engine"] and not e["proxy"] and not b[0]["manage_all"] and e["var"] == "")
     bad = json.loads(json.dumps(b2))
     bad[i2]["engine"] = [bad[0]["items"][0]["name"]]
     tests.append(("engine verdict flipped to matched", bad))
@@ -397,7 +413,7 @@ def selftest(ctx, blocks):
     # Literal alone: a request that spells the configured URL (no wildcard, engine matched it, no trailing slash),
     # recorded as "engine did not match, proxy did not manage" - NoBypass is then vacuous, Literal must reject it
     b3, i3 = find(lambda b, e: len(b[0]["items"]) == 1 and (not b[0]["items"][0]["p"] or b[0]["items"][0]["p"][-1] != "*")
-                  and e["engine"] and e["proxy"] and not e["ts"] and not b[0]["manage_all"])
+                  and e["engine"] and e["proxy"] and e["var"] == "" and not b[0]["manage_all"])
     bad = json.loads(json.dumps(b3))
     bad[i3]["engine"], bad[i3]["proxy"] = [], False
     _, rej, _ = tlc_validate(ctx, [bad], "selftest", strict=False)
@@ -411,16 +427,20 @@ def replay(ctx, path):
     obj = json.load(open(path))
     binary = ctx.build_harness("c14")
     g = obj["replay"]["group"]
-    real = execute(ctx, binary, [g], "replay")[0]
-    if real["err"]:
-        print("configuration not loaded: %s" % real["err"])
-        return 2
-    ev = events_of(g, real, range(len(g["reqs"])))
+    # engine level: what is registered may depend on Go map iteration order of one engine build -> up to 20 builds
+    for attempt in range(20 if g["kind"] == "engine" else 1):
+        real = execute(ctx, binary, [g], "replay")[0]
+        if real["err"]:
+            print("configuration not loaded: %s" % real["err"])
+            return 2
+        ev = events_of(g, real, range(len(g["reqs"])))
+        _, rej, hits = tlc_validate(ctx, [ev], "replay", strict=False)
+        if rej:
+            break
     for e in real["exprs"]:
         print("expr", e["e"], e["rxerr"])
     for e in ev:
         print(json.dumps(e))
-    _, rej, hits = tlc_validate(ctx, [ev], "replay", strict=False)
     if rej:
         print("VIOLATION property=C14 replay=%s" % path)
         print("   rejected: %s" % json.dumps(rej[0]["req"])[:400])
